@@ -6,6 +6,7 @@
 From C4E Require Export Handlers.
 Open Scope Z_scope.
 
+(* denominations are numbered in their lexicographic order: uc4e = 1, uother = 2, zzz = 3 *)
 Definition NOW : Z := 1700000000.
 Definition BIG : Z := 1180591620717411303424.          (* 2^70 *)
 
@@ -16,11 +17,11 @@ Definition coins_c (c : Z) : coinsv :=
   if c =? 0 then CNil else if c =? 1 then CL []
   else if c =? 2 then CL [(DOk 1, INil)] else if c =? 3 then CL [(DOk 1, IV (-3))]
   else if c =? 4 then CL [(DOk 1, IV 0)] else if c =? 5 then CL [(DOk 1, IV 5)]
-  else if c =? 6 then CL [(DOk 2, IV 1); (DOk 1, IV 1)] else if c =? 7 then CL [(DOk 1, IV 1); (DOk 1, IV 2)]
+  else if c =? 6 then CL [(DOk 3, IV 1); (DOk 1, IV 1)] else if c =? 7 then CL [(DOk 1, IV 1); (DOk 1, IV 2)]
   else if c =? 8 then CL [(DBad, IV 1)] else CL [(DOk 1, IV BIG)].
 Definition denoms_c (c : Z) : list denom :=
   if c =? 0 then [] else if c =? 1 then [DEmpty] else if c =? 2 then [DOk 1; DOk 1] else if c =? 3 then [DBad]
-  else if c =? 4 then [DOk 1] else if c =? 5 then [DOk 2] else [DBad].
+  else if c =? 4 then [DOk 1] else if c =? 5 then [DOk 3] else [DBad].
 Definition dec_c (c : Z) : dval :=
   if c =? 0 then DNil else if c =? 1 then DV (- (P / 10)) else if c =? 2 then DV 0 else if c =? 3 then DV (P / 2)
   else if c =? 4 then DV P else DV (3 * P).
@@ -92,7 +93,7 @@ Definition decode_msg (h : Z) (v : list Z) : option msg :=
   else if h =? 5 then Some (MSplit (addr_c (c 0%nat)) (addr_c (c 1%nat)) (coins_c (c 2%nat)))
   else if h =? 6 then Some (MMove (addr_c (c 0%nat)) (addr_c (c 1%nat)))
   else if h =? 7 then Some (MMoveByDenoms (addr_c (c 0%nat)) (addr_c (c 1%nat)) (denoms_c (c 2%nat)))
-  else if h =? 8 then Some (MUpdateDenom (auth_c (c 0%nat)) (denom4_c (c 1%nat) 3))
+  else if h =? 8 then Some (MUpdateDenom (auth_c (c 0%nat)) (denom4_c (c 1%nat) 2))
   else if h =? 9 then Some (MMinterUpdateParams (auth_c (c 0%nat)) (denom4_c (c 1%nat) 1) (NOW * 1000000000) (minters_c (c 2%nat)))
   else if h =? 10 then Some (MMinterUpdateMinters (auth_c (c 0%nat)) (NOW * 1000000000) (minters_c (c 1%nat)))
   else if h =? 11 then Some (MDistrUpdateParams (auth_c (c 0%nat)) (if c 1%nat <? 7 then [sd_c (c 1%nat)] else []))
@@ -136,3 +137,17 @@ Fixpoint hmismatches (cs : list hcase) : list (Z * list Z * list Z) :=
   | [] => []
   | c :: t => match check_hcase c with Some x => x :: hmismatches t | None => hmismatches t end
   end.
+
+(* ---- second stream: messages with randomly drawn values, printed by the harness as terms of type msg *)
+Definition vcase := (msg * Z * Z)%type.
+Definition check_vcase (i : Z) (c : vcase) : option (Z * list Z) :=
+  let '(m, vb, hr) := c in
+  let vbm := code (validate_basic sweep_env m) in
+  let hm := code (handle sweep_env m) in
+  if (vbm =? vb) && (hm =? hr) then None else Some (i, [vbm; vb; hm; hr]).
+Fixpoint vmismatches_from (i : Z) (cs : list vcase) : list (Z * list Z) :=
+  match cs with
+  | [] => []
+  | c :: t => match check_vcase i c with Some x => x :: vmismatches_from (i + 1) t | None => vmismatches_from (i + 1) t end
+  end.
+Definition vmismatches (cs : list vcase) : list (Z * list Z) := vmismatches_from 0 cs.
